@@ -175,6 +175,9 @@ type Env struct {
 	Events  []Event
 	Pubs    []Pub
 	FailNew int // upcoming NewSubConn calls that fail (connection factory error)
+	// SlowRemove: RemoveSubConn takes this long (simulated); NSlow counts such calls
+	SlowRemove time.Duration
+	NSlow      int
 	// pubMu is the synchronisation gRPC really provides between a balancer
 	// publishing a picker and RPC goroutines using it (picker wrapper mutex);
 	// coreMu chains successive balancer callbacks (one serializer goroutine in
@@ -260,6 +263,12 @@ func (c *FakeCC) RemoveSubConn(sc balancer.SubConn) {
 	}
 	f.Removed = true
 	e.add(Event{Kind: EvRemoveSC, Conn: f.ID, Note: note})
+	if e.SlowRemove > 0 {
+		// plan.SlowCC: the channel takes its time to tear the connection down (the
+		// caller - a balancer callback - waits; simulated time passes inside it)
+		e.NSlow++
+		e.k.Sleep(e.SlowRemove)
+	}
 }
 
 //go:norace
